@@ -672,6 +672,12 @@ func c09Random(r *verifh.Rand, tr *verifh.T) verifh.Case {
 			tr.Count("random_step", 1)
 			continue
 		}
+		if r.Chance(1, 12) {
+			// let the flush finish: most metadata races start from a flushed blob
+			ops = append(ops, []string{"drain"})
+			tr.Count("random_drain", 1)
+			continue
+		}
 		k := keys[r.Intn(len(keys))]
 		sc := c09Scopes[r.Intn(len(c09Scopes))]
 		var o []string
@@ -769,6 +775,11 @@ func c09Scripts() [][][]string {
 			c09Op("create", "k0", "1", "xa1"), c09Op("setmd", "k0", "any", "i0", "x07"), c09Op("setmd", "k0", "any", "m0", "x01"),
 			c09Op("complete", "k0"), c09Op("delmd", "k0", "any", "m0"), c09Op("setmd", "k0", "c", "i0", "x08"),
 		},
+		{ // metadata changes on a blob that has been flushed already (metadata-only flushes)
+			c09Op("create", "k0", "2", "xa1a2"), c09Op("setmd", "k0", "any", "m0", "x01"), c09Op("complete", "k0"),
+			{"drain"}, c09Op("delmd", "k0", "any", "m0"), c09Op("setmd", "k0", "any", "m1", "x04"),
+			c09Op("setmd", "k0", "any", "m1", "x05"),
+		},
 		{ // two keys, the second one squeezes the first out of memory
 			c09Op("create", "k0", "2", "xa1a2"), c09Op("complete", "k0"), c09Op("create", "k1", "3", "xb1b2b3"),
 			c09Op("complete", "k1"), c09Op("open", "k0", "any"),
@@ -792,11 +803,11 @@ func TestVerif_C09(t *testing.T) {
 	// (a) bounded-exhaustive over schedules: every way of giving the worker 0..N steps after each
 	// client operation of a script
 	for _, sc := range c09Scripts() {
-		c09Interleave(tr, cfg, sc, verifh.Scale(3, 7), closing, "interleaving_cases", verifh.Scale(1500, 0))
+		c09Interleave(tr, cfg, sc, verifh.Scale(3, 7), closing, "interleaving_cases", verifh.Scale(1100, 0))
 	}
 	// (b) random schedules
 	r := verifh.NewRand(verifh.Seed(), "c09")
-	for i := 0; i < verifh.Scale(2500, 120000); i++ {
+	for i := 0; i < verifh.Scale(2000, 120000); i++ {
 		c := c09Random(r, tr)
 		if i < 2 {
 			tr.Sample(fmt.Sprint(c.Cfg, c.Ops))
